@@ -142,6 +142,8 @@ def _mech(m, pos):
         def kind_of(x):
             if x.search_ancestor('import_name', 'import_from') is not None:
                 return 'import'
+            if x.parent.type in ('global_stmt', 'nonlocal_stmt'):
+                return 'declaration'
             if x.search_ancestor('type_params') is not None:
                 return 'type_param'
             if x.parent is root and root.type in ('funcdef', 'classdef') and len(root.children) > 1 and root.children[1] is x:
@@ -172,7 +174,7 @@ def _mech(m, pos):
             return 'plain'
         kinds = sorted({kind_of(x) for x in occ})
         d['earlier_occurrence_kinds'] = kinds
-        d['earlier_occurrences_all_in_imports'] = bool(occ) and kinds == ['import']
+        d['earlier_occurrences_all_in_imports'] = bool(occ) and 'import' in kinds and set(kinds) <= {'import', 'declaration'}
         d['earlier_occurrences_none_plain'] = bool(occ) and not any(k.startswith('plain') for k in kinds)
     return d
 
